@@ -122,6 +122,47 @@ def random_pairs(rng, n):
     return out
 
 
+# ---- sibling lists over a palette of weights (impl -> spec direction) ----------
+# The diff aligns the children of two call nodes by a weighted LCS: what decides an alignment is the weight of a
+# subtree (its state words, or half its node count when it holds no state) against the score of a partial match.
+# The palette spans that space: leaves of 1..3 words, stateless calls of 1..5 nodes, calls that mix both.
+def _fn(*ch):
+    return {"k": "fn", "ch": list(ch)}
+
+
+E0 = _fn()
+PALETTE = [
+    {"k": "mem", "n": 1}, {"k": "mem", "n": 3}, {"k": "delay", "n": 2}, {"k": "feed", "n": 1},
+    E0, _fn(E0, E0), _fn(E0, E0, E0, E0),
+    _fn(E0, E0, E0, E0, {"k": "mem", "n": 1}), _fn(E0, E0, {"k": "delay", "n": 2}), _fn({"k": "mem", "n": 3}),
+]
+
+
+def palette_pairs(rng, limit):
+    """every list of <= 3 palette elements (and a seeded sample of the lists of 4) with every single deletion of a
+    child, in both directions (deletion / insertion): the survivors of such a pair are unambiguous"""
+    import itertools
+    lists = [list(t) for n in range(1, 4) for t in itertools.product(range(len(PALETTE)), repeat=n)]
+    four = [list(t) for t in itertools.product(range(len(PALETTE)), repeat=4)]
+    rng.shuffle(four)
+    lists += four[:max(0, limit // 8)]
+    out = []
+    for li in lists:
+        old = _fn(*[clone(PALETTE[i]) for i in li])
+        for d in range(len(li)):
+            new = _fn(*[clone(PALETTE[i]) for j, i in enumerate(li) if j != d])
+            if new == old:
+                continue
+            out.append((old, new, "del"))
+            out.append((new, old, "ins"))
+    if len(out) > limit:
+        keep = out[:2 * sum(len(l) for l in lists if len(l) <= 2)]      # the short lists always
+        restp = out[len(keep):]
+        rng.shuffle(restp)
+        out = keep + restp[:limit - len(keep)]
+    return [{"id": f"p{i}", "old": o, "new": n, "rel": rel, "cmp": False} for i, (o, n, rel) in enumerate(out)]
+
+
 def to_trace_record(req, res):
     plan = res.get("plan")
     return {"id": req["id"], "old": req["old"], "new": req["new"], "rel": req.get("rel", "none"),
@@ -221,7 +262,7 @@ def run(tier):
     # 4. impl -> spec: predicates on real plans
     nrand = 1500 if tier == "quick" else 20000
     nsample = 1500 if tier == "quick" else 10000
-    rp = random_pairs(rng, nrand)
+    rp = random_pairs(rng, nrand) + palette_pairs(rng, 12000 if tier == "quick" else 80000)
     rres = vlib.run_harness("tree", rp, timeout_per_req=5.0)
     records = []
     for req, out, crash in rres:
@@ -252,10 +293,12 @@ def run(tier):
                       f"plan={c['plan']['patches']} rel={c['rel']}",
                       {"old": c["old"], "new": c["new"], "failed": preds, "plan": c["plan"]})
     chk.count("evaluations", len(rp))
-    chk.cov["random_pairs"] = len(rp)
+    chk.cov["random_pairs"] = nrand
+    chk.cov["palette_pairs"] = len(rp) - nrand
     chk.cov["distinct_nontrivial"] = len(nontriv)
     chk.cov["rule"] = ("ordered pairs of all layouts of the universe (TLC, exhaustive) + random pairs derived by "
-                       "deletion/insertion scripts (<= 40 nodes); non-trivial = distinct (old,new) whose real plan "
+                       "deletion/insertion scripts (<= 40 nodes) + single deletions / insertions in sibling lists over a palette of "
+                       "subtree weights (stateful leaves, stateless calls of 1..5 nodes, mixed calls); non-trivial = distinct (old,new) whose real plan "
                        "has at least one patch")
     if rp:
         s = rp[0]
